@@ -801,7 +801,8 @@ def oracle_case(args):
                 "plain": base[0] if base[0] == "raised" else ("empty" if not base[1] else "nonempty"),
                 "plain_exc": base[1] if base[0] == "raised" else None,
                 "with_options": opt[1] if opt[0] == "raised" else ("empty" if not opt[1] else str(dict(opt[1]))[:300]),
-                "exc": opt[1] if opt[0] == "raised" else None, "what": what}
+                "exc": opt[1] if opt[0] == "raised" else None, "what": what,
+                "n_reports": None if opt[0] == "raised" else sum(len(v) if hasattr(v, "__len__") else 1 for v in opt[1].values())}
     if fam == "alt":
         if opt[0] == "raised":
             fails.append(case("A", "DeepDiff(x, normalise_F(x), **F) raises %s" % opt[1]))
@@ -823,12 +824,6 @@ def _cleaning(sp):
     return sp["case"] or sp["strty"] or sp["numty"]
 
 
-def m_k8(c):
-    sp = c["spec"]
-    return (c["exc"] == "ValueError" and (sp["case"] or sp["strty"]) and not sp["numty"] and sp["sig"] is None
-            and "numeric_key" in c["features"])
-
-
 def m_dtkey(c):
     return c["exc"] == "TypeError" and _cleaning(c["spec"]) and "datetime_key" in c["features"] and c["clause"] in ("A", "C")
 
@@ -841,10 +836,9 @@ def m_sig0_nan(c):
 
 def m_excl_default_list(c):
     """exclude_types in the default list mode: the difflib pass keeps ONE report of a non-excluded item"""
-    w = str(c["with_options"])
     return (c["clause"] == "A" and c["exc"] is None and not c["zip"] and bool(c["spec"]["excl"])
             and any(x.endswith("@leaf") or x.endswith("@sub") for x in c["altered"])
-            and "iterable_item_" in w and "values_changed" not in w and "type_changes" not in w)
+            and c.get("n_reports") == 1)      # the signature: exactly ONE report survives, so the pairwise pass is not tried
 
 
 def m_excl_set(c):
@@ -936,7 +930,6 @@ def m_memo_set(c):
 
 
 MATCHERS = {
-    "K8": m_k8,
     "C11-DATETIME-KEY": m_dtkey,
     "C11-ENUM-TYPE": m_enum_type,
     "C11-SIG0-NAN": m_sig0_nan,
@@ -1037,15 +1030,11 @@ def atom_level(ctx, n):
 # --------------------------------------------------------------------------
 # case generation
 # --------------------------------------------------------------------------
-def k8_active(sp):
-    return (sp["case"] or sp["strty"]) and not sp["numty"] and sp["sig"] is None
-
-
 def gen_pairs(rng, sp, n, rich):
     """[(family, a, b, log)]"""
     out = []
     for i in range(n):
-        numeric_ok = (not k8_active(sp)) or rng.random() < 0.3
+        numeric_ok = True
         bytes_ok = rng.random() < (0.7 if sp["strty"] else 0.25)
         a = gen_value(rng, rng.choice([1, 2, 2, 3]), rng.choice([2, 3, 4]), bytes_ok, numeric_ok, rich, sp["nan"])
         if sp["excl"] and rng.random() < 0.25:      # an all-atom list rich in atoms of the excluded types
@@ -1187,8 +1176,6 @@ def report_oracle(ctx, results, jobs):
 # --------------------------------------------------------------------------
 WITNESSES = [
     # (key, t1, t2, spec, expectation on the implementation)
-    ("K8", {1: 5}, {1: 5}, mk(case=True), "raises:ValueError"),
-    ("K8", {1.5: 5}, {1.5: 5}, mk(strty=True), "raises:ValueError"),
     ("C11-NUM-KEY", {1.5: 0}, {2.0: 0}, mk(sig=0), "nonempty"),
     ("C11-NUM-KEY", {1.5: 0}, {2.0: 0}, mk(eps=1.0), "nonempty"),
     ("C11-EPS-SET", {1.5}, {2.0}, mk(eps=1.0), "nonempty"),
@@ -1250,7 +1237,9 @@ def run(ctx):
     hand = [({b"a": 1}, {b"a": 1}, mk()), ({b"a": 1}, {b"a": 2}, mk()), ({b"a": [1]}, {b"a": [1]}, mk()),
             ({b"a": 1, "c": 1}, {"c": 1}, mk(strty=True)), ({b"a": 1}, {"a": 1}, mk(strty=True)),
             ({b"a": 1}, {"a": 2}, mk(strty=True)), ({b"A": 1}, {"a": 1}, mk(strty=True, case=True)),
-            ({b"a": 1.5}, {b"a": 1.5}, mk(sig=1)), ({b"k": 1, "a": 1, "b": 1, b"z": 1}, {"k": 1, b"a": 1, b"b": 1}, mk(strty=True))]
+            ({b"a": 1.5}, {b"a": 1.5}, mk(sig=1)), ({b"k": 1, "a": 1, "b": 1, b"z": 1}, {"k": 1, b"a": 1, b"b": 1}, mk(strty=True)),
+            ({1: 5}, {1: 5}, mk(case=True)), ({1.5: 5}, {1.5: 6}, mk(strty=True)), ({True: 5, "A": 1}, {True: 5, "a": 1}, mk(case=True)),
+            ({1: 5}, {1.0: 5}, mk(case=True)), ({1: 5}, {1.0: 5}, mk(case=True, sig=1))]
     for a, b, sp in hand + [(w[1], w[2], w[3]) for w in WITNESSES]:
         for zip_ in (False, True):
             if in_model_universe(a) and in_model_universe(b):
@@ -1268,9 +1257,8 @@ def run(ctx):
         ctx.count("corr_result:%s" % ("raised:" + obs[1] if obs[0] == "raised" else ("empty" if not obs[1] else "entries")))
         ctx.count("corr_mode:%s" % ("positional" if zip_ else "default"))
         ft = features(a, b)
-        k8 = k8_active(sp) and "numeric_key" in ft
         coll = _cleaning(sp) and "clean_collision" in ft
-        ctx.count("corr_guard:%s" % ("outside(K8 numeric key)" if k8 else "outside(clean-key collision)" if coll else "inside"))
+        ctx.count("corr_guard:%s" % ("outside(clean-key collision)" if coll else "inside"))
         ctx.count("oracle_validity:opcode_tables", ntab)
         if not tile_ok:
             bad_tiles += 1
